@@ -1035,7 +1035,9 @@ func c18R5(w *World, r *Report) {
 				rowsFromSameNext = true
 			}
 		}
-		okLoop = sameKeyBytes && rowsFromSameNext
+		if sameKeyBytes && rowsFromSameNext {
+			okLoop = true
+		}
 	}
 	r.check(okLoop, rule, "processIngestRequest:one-key-per-iteration", w.pos(fn.Pos()), "buffer, rows and row bytes of an iteration share the partition key", "within the processing loop the buffer, the rows and their marshaled bytes are not selected by one partition key: rows can be indexed or written under another partition")
 	// row bytes index agreement: rowBytesList[i] written where rows[i] is processed
@@ -1149,7 +1151,7 @@ func c17R7(w *World, r *Report) {
 						}
 					}
 					al, ok := v.(*ssa.Alloc)
-					local := ok && al.Parent() == root
+					local := ok && (al.Parent() == root || w.hostOf(al.Parent()) == root)
 					// no store initialises it from elsewhere: the zero value
 					fresh := local
 					if local {
